@@ -2,7 +2,7 @@ SPECIFICATION Spec
 CONSTANTS
   Fam = "ptstr"
   MaxLen = 5
-  Sel = {1, 2, 3, 4, 5, 6, 7, 8, 9, 10}
+  Sel = {1, 2, 5, 7, 8, 10}
 INVARIANT Lemmas
 INVARIANT InModel
 CHECK_DEADLOCK FALSE
